@@ -296,14 +296,23 @@ class SwapDisjToFrontMacro(Macro):
 
     def get_proof_term(self, args, prevs) -> ProofTerm:
         prev = prevs[0]
-        _, idx = args
+        l_args, idx = args
+        if idx == 0:
+            return prev
+
+        # The last part is d_{idx-1} | d_idx or d_{idx-1} | d_idx | rest:
+        # bring d_idx to its front.
         disjs = strip_disj_n(prev.prop, idx)
         eq_pt = ProofTerm.reflexive(disjs[-1])
+        if idx == len(l_args) - 1:
+            eq_pt = eq_pt.on_rhs(rewr_conv('disj_comm'))
+        else:
+            eq_pt = eq_pt.on_rhs(rewr_conv('disj_swap_eq'))
 
-        # Add one disjunct at one time.
+        # Add one disjunct at one time, and move d_idx in front of it.
         for t in reversed(disjs[:-1]):
             eq_pt = ProofTerm.reflexive(disj(t)).combination(eq_pt)
-            eq_pt.on_rhs(rewr_conv('disj_swap_eq'))
+            eq_pt = eq_pt.on_rhs(rewr_conv('disj_swap_eq'))
         return eq_pt.equal_elim(prev)
 
 
